@@ -113,7 +113,7 @@ func (r *recvRig) do(q rawReq) (status int, body string, err error) {
 // a well-formed one-part data request body for file name with the given content
 func dataBody(name, renamed, prev, content string) (metaLen int, body string) {
 	meta := []map[string]interface{}{{
-		"n": name, "r": renamed, "p": prev, "f": vh.MD5([]byte(content)), "t": "946684800.000000000", "s": len(content), "b": 0, "e": len(content),
+		"n": name, "r": renamed, "p": prev, "f": vh.MD5([]byte(content)), "t": "946684800+5", "s": len(content), "b": 0, "e": len(content),
 	}}
 	b, _ := json.Marshal(meta)
 	return len(b), string(b) + content
